@@ -67,6 +67,55 @@ def snap_value(v):
     return {"kind": type(v).__name__, "value": v, "id": id(v)}
 
 
+def _delayed_apply(delay, func, args, kwds):
+    time.sleep(delay)
+    return func(*args, **kwds)
+
+
+def _delayed_item(func, pair):
+    time.sleep(pair[0])
+    return func(pair[1])
+
+
+class DelayPool:
+    """a worker pool in which the n-th task submitted (through whatever submission call) starts delays[n % len(delays)] seconds
+    late, so that with several worker processes later-submitted tasks FINISH FIRST - a legal schedule of the real pool, forced"""
+
+    def __init__(self, real, delays):
+        self._real, self._delays, self._n = real, list(delays), 0
+
+    def _next(self):
+        d = self._delays[self._n % len(self._delays)]
+        self._n += 1
+        return d
+
+    def apply_async(self, func, args=(), kwds=None, *a, **k):
+        return self._real.apply_async(_delayed_apply, (self._next(), func, tuple(args), dict(kwds or {})), {}, *a, **k)
+
+    def _items(self, func, iterable):
+        import functools
+        return functools.partial(_delayed_item, func), [(self._next(), x) for x in iterable]
+
+    def imap_unordered(self, func, iterable, *a, **k):
+        f, items = self._items(func, iterable)
+        return self._real.imap_unordered(f, items, *a, **k)
+
+    def imap(self, func, iterable, *a, **k):
+        f, items = self._items(func, iterable)
+        return self._real.imap(f, items, *a, **k)
+
+    def map(self, func, iterable, *a, **k):
+        f, items = self._items(func, iterable)
+        return self._real.map(f, items, *a, **k)
+
+    def map_async(self, func, iterable, *a, **k):
+        f, items = self._items(func, iterable)
+        return self._real.map_async(f, items, *a, **k)
+
+    def __getattr__(self, name):
+        return getattr(self._real, name)
+
+
 class RecordingPool:
     """stands in for the multiprocessing pool; records what each task receives"""
 
@@ -199,7 +248,10 @@ def traced_run(cfg, extra_patches=None):
     orig_init = main_loop._init_task_pool
 
     def init_pool(n):
-        return RecordingPool(orig_init(n), tasks)
+        real = orig_init(n)
+        if cfg.get("delays"):
+            real = DelayPool(real, cfg["delays"])       # adverse completion order (needs mp=True and procs >= 2 to matter)
+        return RecordingPool(real, tasks)
     _verif.clear_listeners()
     _verif.add_listener(listener)
     main_loop._init_task_pool = init_pool
@@ -361,6 +413,11 @@ def standard_grid(seed, thorough=False):
         dict(N=1, W=4, K=2, beta=2.0, lam=0.11, limit=3, m=2, biased=False, eps=0, joint=True, lengths=[30, 50, 40], regimes=2, mp=True, procs=2),
         dict(N=2, W=12, K=2, beta=1.0, beta_vec="const", lam=0.3, limit=2, m=2, biased=False, eps=0, joint=False, lengths=[64], regimes=2),
         dict(N=1, W=1, K=3, beta=0.0, lam=0.0, limit=30, m=1, biased=True, eps=0, joint=False, lengths=[75], regimes=3, offset=1e4),
+        # real worker processes under an adverse schedule: the first task of every batch finishes last / the tasks finish in reverse
+        dict(N=2, W=2, K=3, beta=4.0, lam=0.11, limit=3, m=2, biased=False, eps=0, joint=False, lengths=[120], regimes=3, mp=True, procs=3,
+             delays=[0.35, 0.0, 0.0]),
+        dict(N=1, W=3, K=4, beta=2.0, lam=0.11, limit=2, m=2, biased=True, eps=0, joint=True, lengths=[70, 60], regimes=3, mp=True, procs=4,
+             delays=[0.45, 0.3, 0.15, 0.0]),
     ]
     # as many regimes as clusters and a large refill size: a cluster is starved in mid-run, refilled, and the run converges with
     # every cluster populated (data seeds fixed: the event sequence was observed on the validated tree)
